@@ -3,7 +3,9 @@
 Domain : recursive patterns (scalars, regex, lists, sets, dicts; depth <= 3) x payloads derived from the
          pattern's witness by add / drop / reorder / alter / retype mutations (or independent payloads),
          1-2 mentioned parameters, 0-2 unmentioned parameters; instance-specific matches for action
-         and flow references.
+         and flow references.  Regex leaves come from two pools: patterns that consume text and patterns that are
+         found with an EMPTY span (look-arounds, bare anchors, `x*` in front of a non-x).  The flow may have executed
+         a `priority p` statement (p in {0.0, 0.1, 0.5, 1.0}) before the judged match statement.
 Oracle : an independent recursive matcher written from the property text / the language reference.
          Verdict is compared with "does `Hit` appear in the outgoing events".
 """
@@ -18,17 +20,24 @@ PID = "C04"
 LEVEL = "exploration"
 CASE_TIMEOUT = 30
 RULE = (
-    "pattern P drawn recursively from scalars {None,bool,int>=2,non-integral float,str}, regex pool, list, set (hashable "
+    "pattern P drawn recursively from scalars {None,bool,int>=2,non-integral float,str}, regex pool (half of the regex leaves "
+    "are patterns that consume text, half are patterns found with an EMPTY span: look-ahead/look-behind only, bare anchors ^ $ \\b \\B, "
+    "x* / \\d* / the empty pattern in front of a non-matching character - each with a non-empty witness and, where one exists, a non-witness), list, set (hashable "
     "members), dict(str keys), depth<=3, <=4 children; payload V = witness(P) with 0-3 structural mutations (insert/drop/"
     "swap/alter-leaf/retype/replace-subtree) or an independent value; program `match Ev(p=P[,q=Q])` then `send Hit()`; the event "
     "carries 0-2 unmentioned parameters; in half of the cases the pattern is held in flow variables, in half the statement captures the event (`as $ref`) inside a loop and judges a second, different payload. In one case of six the pattern is matched against the start arguments of an action instance (`match XAction(p=P).Finished()` on the Finished event of an action started with those arguments). Plus a small exhaustive table over leaves {2,'a'} depth<=2 and instance cases "
-    "($ref.Finished() of action/flow instances). Non-trivial = pattern nesting depth >= 2, or a payload obtained by a "
+    "($ref.Finished() of action/flow instances), plus the table regex pool x value pool (all witnesses/non-witnesses, '', numbers) in three shapes "
+    "(bare, inside a longer list, inside a larger dict). In half of all generated cases (every form) and in a slice of the enumerated ones the flow executes `priority p`, "
+    "p in {0.0, 0.1, 0.5, 1.0}, directly before the judged match statement (single flow, no competitor: the priority only ranks competing matches). Non-trivial = pattern nesting depth >= 2, or a payload obtained by a "
     "drop/swap/retype mutation (fewer elements, reordered, different container); distinct by (pattern, payload)."
 )
 ASSUMPTIONS = [
     "numerically equal values of different numeric types (1 vs True vs 1.0) are never generated: the text does not specify them",
     "list patterns follow the property text ('expected list items found in order'), not the stricter 'same position' wording of the docs",
     "dict keys return_value/activated/source_flow_instance_uid (filtered by the interpreter) are never used as keys",
+    "a regex is 'found in the value' in the sense of re.search on str(value), whatever the length of the span that is found (an empty span is a find)",
+    "the flow priority (allowed range [0.0, 1.0], 0.0 included) only ranks competing matches; the statement has no priority clause, so a lone waiting match must "
+    "advance on a matching event whatever priority its flow has set (the reference says the score 'is multiplied by' the priority; it does not say that 0.0 switches a flow off)",
 ]
 
 REGEX = [
@@ -40,7 +49,25 @@ REGEX = [
     ("a.c", "abc", "ac"),
     ("1\\d*0", 120, 121),
 ]
-RX = {p: (y, n) for p, y, n in REGEX}
+# patterns that are found with an EMPTY span (pattern, non-empty witness, non-witness or NOWIT if every value matches)
+NOWIT = None
+REGEX_ZW = [
+    ("(?=.*a)(?=.*b)", "xbya", "bxb"),
+    ("^(?!.*bad)", "all good", "too bad"),
+    ("(?=b)", "abc", "acd"),
+    ("(?<=a)", "ab", "bc"),
+    ("^(?=1)", 120, 21),
+    ("^", "abc", NOWIT),
+    ("$", 5, NOWIT),
+    ("\\b", "ab", "--"),
+    ("\\B", "ab", "a"),
+    ("x*", "abxc", NOWIT),
+    ("\\d*", "x12", NOWIT),
+    ("", "ab", NOWIT),
+]
+RX = {p: (y, n) for p, y, n in REGEX + REGEX_ZW}
+ZW = {p for p, _, _ in REGEX_ZW}
+PRIORITIES = [0.0, 0.1, 0.5, 1.0]
 
 SCALARS = [None, True, False, 2, 3, 7, 2.5, 0.75, "a", "b", "ab", ""]
 
@@ -100,6 +127,19 @@ def ref_match(P, V):
     return type(P) is type(V) and P == V
 
 
+def has_zw(x):
+    """Does the pattern contain a regex that is found with an empty span?"""
+    if is_rx(x):
+        return x["__regex__"] in ZW
+    if is_set(x):
+        return any(has_zw(i) for i in x["__set__"])
+    if isinstance(x, list):
+        return any(has_zw(i) for i in x)
+    if isinstance(x, dict):
+        return any(has_zw(i) for i in x.values())
+    return False
+
+
 def depth(x):
     if is_rx(x):
         return 0
@@ -116,7 +156,8 @@ def depth(x):
 # generators
 
 scalar = st.sampled_from(SCALARS)
-regex = st.sampled_from([{"__regex__": p} for p, _, _ in REGEX])
+regex = st.one_of(st.sampled_from([{"__regex__": p} for p, _, _ in REGEX]), st.sampled_from([{"__regex__": p} for p, _, _ in REGEX_ZW]))
+priority = st.one_of(st.none(), st.sampled_from(PRIORITIES))  # `priority p` executed before the judged match statement
 hashable_leaf = st.one_of(scalar, regex)
 
 
@@ -258,7 +299,7 @@ def _case(draw):
     form = draw(st.sampled_from(["param"] * 8 + ["action_instance", "flow_instance"]))
     if form != "param":
         target = draw(st.sampled_from([0, 1, 2, "none", "missing", "unknown"]))
-        return {"form": form, "which": draw(st.integers(0, 2)), "target": target, "n": 3, "with_args": draw(st.booleans()), "event": draw(st.sampled_from(["Finished", "Started"]))}
+        return {"form": form, "which": draw(st.integers(0, 2)), "target": target, "n": 3, "with_args": draw(st.booleans()), "event": draw(st.sampled_from(["Finished", "Started"])), "priority": draw(priority)}
     via_action = draw(st.integers(0, 5)) == 0  # the pattern is matched against the START ARGUMENTS of an action instance
     nparams = draw(st.integers(1, 2))
     pats, pay, kinds = {}, {}, []
@@ -270,7 +311,7 @@ def _case(draw):
             kinds.append("independent")
         else:
             V = witness(P)
-            if is_rx(P) and draw(st.booleans()):
+            if is_rx(P) and RX[P["__regex__"]][1] is not NOWIT and draw(st.booleans()):
                 V = RX[P["__regex__"]][1]
                 kinds.append("regex-nonwitness")
             for _ in range(draw(st.sampled_from([0, 0, 0, 1, 1, 1, 2, 3]))):
@@ -282,7 +323,7 @@ def _case(draw):
         else:
             pay[name] = V
     extra = draw(st.dictionaries(st.sampled_from(["x", "y"]), scalar, max_size=2))
-    case = {"form": "param", "pattern": pats, "payload": pay, "extra": extra, "mut": kinds}
+    case = {"form": "param", "pattern": pats, "payload": pay, "extra": extra, "mut": kinds, "priority": draw(priority)}
     if via_action:
         case["form"] = "action_args"
         return case
@@ -328,6 +369,30 @@ def enumerate_cases(tier):
     for P in pats:
         for V in pays:
             yield {"form": "param", "pattern": {"p": P}, "payload": {"p": V}, "extra": {}, "mut": ["table"]}
+    # regex table: every regex of both pools x every witness / non-witness of the pools (+ '', small numbers), the regex bare,
+    # inside a list judged against a longer list, inside a dict judged against a larger dict; a slice runs under `priority p`
+    rvals = _uniq([v for _, y, n in REGEX + REGEX_ZW for v in (y, n) if v is not NOWIT] + ["", "a", "b", 5, 2.5])
+    n = 0
+    for p, _, _ in REGEX + REGEX_ZW:
+        rx = {"__regex__": p}
+        for v in rvals:
+            n += 1
+            for shape, (P, V) in enumerate(((rx, v), (["a", rx], ["0", "a", v, 7]), ({"k1": rx}, {"k1": v, "k2": 2}))):
+                yield {"form": "param", "pattern": {"p": P}, "payload": {"p": V}, "extra": {}, "mut": ["regex-table"], "priority": ([None, None] + PRIORITIES)[(n + 2 * shape) % 6]}
+    # priority table: a few (P, V) pairs of every container kind, matching and not, under every priority, in every statement form
+    pv = [
+        ("a", "a"), ("a", "b"), ([2, "a"], [3, 2, "a"]), ([2, "a"], ["a", 2]), ({"__set__": [2]}, {"__set__": [2, "a"]}), ({"__set__": [2, "a"]}, {"__set__": [2]}),
+        ({"k1": [2]}, {"k1": [2], "k2": "a"}), ({"k1": [2]}, {"k2": [2]}), ({"__regex__": "^ab"}, "abc"), ({"__regex__": "^ab"}, "cab"),
+    ]
+    for pr in PRIORITIES:
+        for P, V in pv:
+            base = {"pattern": {"p": P}, "payload": {"p": V}, "extra": {"x": 2}, "mut": ["priority-table"], "priority": pr}
+            yield dict(base, form="param")
+            yield dict(base, form="param", via_var=True, second={"payload": {"p": witness(P)}, "extra": {}})
+            yield dict(base, form="action_args")
+        for target in [0, 1, "none"]:
+            yield {"form": "action_instance", "which": 1, "target": target, "n": 3, "with_args": True, "event": "Finished", "priority": pr}
+            yield {"form": "flow_instance", "which": 1, "target": target if isinstance(target, int) else 2, "n": 3, "with_args": True, "event": "Finished", "priority": pr}
     for form in ("action_instance", "flow_instance"):
         for which in range(3):
             for target in [0, 1, 2, "none", "missing", "unknown"]:
@@ -341,8 +406,18 @@ def enumerate_cases(tier):
 # ---------------------------------------------------------------------------------------------
 
 
+def _prio(case, indent="  "):
+    """(`priority p` line in front of the judged match statement or '', labels)."""
+    p = case.get("priority")
+    if p is None:
+        return "", []
+    return f"{indent}priority {float(p)!r}\n", ["priority-set", f"priority-{float(p)!r}"]
+
+
 def _instance_case(case):
     n, which, target = case["n"], case["which"], case["target"]
+    prio, prio_labels = _prio(case)
+    prio_lines = [prio.rstrip("\n")] if prio else []
     if case["form"] == "action_instance":
         with_args = case.get("with_args", True)
         evname = case.get("event", "Finished")
@@ -351,7 +426,7 @@ def _instance_case(case):
         lines = ["flow main"]
         for i in range(n):
             lines.append(f"  start {action} as $a{i}")
-        lines += [f"  match $a{which}.{evname}()", "  send Hit()", "  match Never()"]
+        lines += prio_lines + [f"  match $a{which}.{evname}()", "  send Hit()", "  match Never()"]
         state = smh.init("\n".join(lines) + "\n")
         starts = [e for e in state.outgoing_events if e["type"] == "Start" + typ]
         if len(starts) != n:
@@ -368,17 +443,17 @@ def _instance_case(case):
         lines = ["flow f $i", "  match Go(i=$i)", "", "flow main"]
         for i in range(n):
             lines.append(f"  start f {i} as $r{i}")
-        lines += [f"  match $r{which}.Finished()", "  send Hit()", "  match Never()"]
+        lines += prio_lines + [f"  match $r{which}.Finished()", "  send Hit()", "  match Never()"]
         state = smh.init("\n".join(lines) + "\n")
         out = smh.feed(state, smh.ev("Go", i=target))
     hit = "Hit" in smh.types(out)
     if hit != (which == target):
         raise Violation(
             "instance-specificity",
-            f"{case['form']} (action with arguments: {case.get('with_args', True)}, {case.get('event', 'Finished')}): statement refers to instance {which}, event belongs to instance {target}, Hit emitted={hit}",
+            f"{case['form']} (action with arguments: {case.get('with_args', True)}, {case.get('event', 'Finished')}, flow priority {case.get('priority')}): statement refers to instance {which}, event belongs to instance {target}, Hit emitted={hit}",
         )
     lab = "same-instance" if which == target else "other-instance" if isinstance(target, int) else f"event-uid-{target}"
-    return ok(nt=True, labels=[case["form"], lab], view=case)
+    return ok(nt=True, labels=[case["form"], lab] + prio_labels, view=case)
 
 
 def _action_args_case(case):
@@ -396,7 +471,8 @@ def _action_args_case(case):
     if any(smh.lit(v) == "set()" for v in pay.values()) or "set()" in start_args:
         return ok(skip="empty set literal")
     pat_args = ", ".join(f"{k}={smh.lit(v)}" for k, v in pats.items())
-    program = f"flow main\n  start XAction({start_args}) as $a\n  match XAction({pat_args}).Finished()\n  send Hit()\n  match Never()\n"
+    prio, prio_labels = _prio(case)
+    program = f"flow main\n  start XAction({start_args}) as $a\n{prio}  match XAction({pat_args}).Finished()\n  send Hit()\n  match Never()\n"
     state = smh.init(program)
     starts = [e for e in state.outgoing_events if e["type"] == "StartXAction"]
     if len(starts) != 1:
@@ -406,10 +482,11 @@ def _action_args_case(case):
     if got != expected:
         raise Violation(
             "action-arguments-verdict",
-            f"action started as XAction({start_args}); `match XAction({pat_args}).Finished()` {'matched' if got else 'did not match'} its Finished event, rule says {'match' if expected else 'no match'}",
+            f"action started as XAction({start_args}); {'`' + prio.strip() + '` then ' if prio else ''}`match XAction({pat_args}).Finished()` {'matched' if got else 'did not match'} its Finished event, rule says {'match' if expected else 'no match'}",
         )
     d = max(depth(P) for P in pats.values())
-    return ok(nt=d >= 1, labels=["action-args", "match" if expected else "no-match", f"depth{d}"], view={"start": f"XAction({start_args})", "statement": f"match XAction({pat_args}).Finished()", "matched": got})
+    zw = ["zero-width-regex"] if any(has_zw(P) for P in pats.values()) else []
+    return ok(nt=d >= 1, labels=["action-args", "match" if expected else "no-match", f"depth{d}"] + zw + prio_labels, view={"start": f"XAction({start_args})", "statement": f"match XAction({pat_args}).Finished()", "matched": got})
 
 
 def prop(case):
@@ -432,10 +509,12 @@ def prop(case):
         setup, stmt_args = "", args
     if second is not None:
         # the same statement (with a capture) judges two events one after the other
-        program = f"flow main\n{setup}  while True\n    match Ev({stmt_args}) as $ref\n    send Hit()\n"
+        prio, prio_labels = _prio(case, "    ")
+        program = f"flow main\n{setup}  while True\n{prio}    match Ev({stmt_args}) as $ref\n    send Hit()\n"
     else:
-        program = f"flow main\n{setup}  match Ev({stmt_args})\n  send Hit()\n  match Never()\n"
-    desc = f"`match Ev({args})`" + (" (pattern held in variables)" if case.get("via_var") else "") + (" (in a loop, with `as $ref`)" if second is not None else "")
+        prio, prio_labels = _prio(case)
+        program = f"flow main\n{setup}{prio}  match Ev({stmt_args})\n  send Hit()\n  match Never()\n"
+    desc = (f"`{prio.strip()}` then " if prio else "") + f"`match Ev({args})`" + (" (pattern held in variables)" if case.get("via_var") else "") + (" (in a loop, with `as $ref`)" if second is not None else "")
     state = smh.init(program)
     event = {"type": "Ev"}
     for k, v in pay.items():
@@ -472,5 +551,8 @@ def prop(case):
         labels.append("same-statement-second-event")
     if case["extra"]:
         labels.append("unmentioned-params")
+    if any(has_zw(P) for P in pats.values()):
+        labels.append("zero-width-regex")
+    labels += prio_labels
     view = {"statement": f"match Ev({args})", "event": repr(event), "matched": got}
     return ok(nt=nt, labels=labels, view=view)
